@@ -494,5 +494,350 @@ theorem wk0_waitMapSem {p : Pool} {m : Nat} (h : WK (ES m) p) : WK0 (p.waitMapSe
     · intro _ _; simp
     · intro e; rw [ho] at e; cases e
 
+theorem wk_createTask {p : Pool} {m : Nat} (h : WK (ES m) p) (isMap : Bool) : WK (ES m) (p.createTask m isMap) := by
+  unfold createTask
+  simp only
+  refine wk_emitRef (wk_modReq_ex (wk_tasks h _ (by rfl) (by rfl) ?_) m _ rfl (fun _ => ⟨by rfl, by rfl⟩)) _
+  intro i k' hq _ hg
+  rcases append_some hq with hk | ⟨_, rfl⟩
+  · exact hg k' hk
+  · exact ⟨fun _ => rfl, by simp [newTask], by simp [newTask]⟩
+
+theorem wk_takeSlotAndCreate {p : Pool} {m : Nat} (h : WK (ES m) p) (isMap : Bool) :
+    WK (ES m) (p.takeSlotAndCreate m isMap) := by
+  unfold takeSlotAndCreate
+  exact wk_createTask (wk_of_eq h (by rfl) (by rfl) (by rfl)) isMap
+
+theorem wk0_applyLoop (m n : Nat) (p : Pool) (h : WK (ES m) p) : WK0 (applyLoop m n p) := by
+  induction n generalizing p with
+  | zero =>
+    unfold applyLoop
+    exact wk0_finishMeta (wk_modReq_ex h m _ rfl (fun _ => ⟨by rfl, by rfl⟩)) _
+  | succ n ih =>
+    unfold applyLoop
+    simp only
+    have h0 : WK (ES m) (p.modReq m fun x => { x with remaining := n + 1 }) :=
+      wk_modReq_ex h m _ rfl (fun _ => ⟨by rfl, by rfl⟩)
+    split
+    · exact ih _ (wk_modReq_ex h0 m _ rfl (fun _ => ⟨by rfl, by rfl⟩))
+    · split
+      · exact wk0_finishMeta h0 _
+      · split
+        · exact wk0_finishMeta h0 _
+        · split
+          · exact wk0_waitRoom h0
+          · exact ih _ (wk_takeSlotAndCreate h0 false)
+
+/-- `_start_task` for a map element: either the task was created (and the spawner goes on), or the step is over -/
+theorem wk_mapStartTask {p : Pool} {m : Nat} (h : WK (ES m) p) :
+    ((p.mapStartTask m).2 = true → WK (ES m) (p.mapStartTask m).1) ∧
+    ((p.mapStartTask m).2 = false → WK0 (p.mapStartTask m).1) := by
+  unfold mapStartTask
+  split
+  · exact ⟨fun e => (by cases e), fun _ => wk0_finishMeta h _⟩
+  · split
+    · exact ⟨fun e => (by cases e), fun _ => wk0_waitRoom h⟩
+    · exact ⟨fun _ => wk_takeSlotAndCreate h true, fun e => (by cases e)⟩
+
+theorem wk_pullItem {p : Pool} {m : Nat} (h : WK (ES m) p) (rest : List Item) : WK (ES m) (p.pullItem m rest) := by
+  unfold pullItem
+  simp only
+  exact wk_runHooks (wk_logEv (wk_modReq_ex h m _ rfl (fun _ => ⟨by rfl, by rfl⟩)) _) _ _
+
+theorem wk_takeMapSlot {p : Pool} {m : Nat} (h : WK (ES m) p) : WK (ES m) (p.takeMapSlot m) := by
+  unfold takeMapSlot
+  exact wk_modReq_ex h m _ rfl (fun _ => ⟨by rfl, by rfl⟩)
+
+theorem wk0_mapLoop (m : Nat) (items : List Item) (p : Pool) (h : WK (ES m) p) : WK0 (mapLoop m items p) := by
+  induction items generalizing p with
+  | nil =>
+    unfold mapLoop
+    exact wk0_finishMeta (wk_modReq_ex h m _ rfl (fun _ => ⟨by rfl, by rfl⟩)) _
+  | cons it rest ih =>
+    unfold mapLoop
+    simp only
+    have h0 := wk_pullItem h rest
+    split
+    · exact wk0_finishMeta h0 _
+    · split
+      · exact ih _ (wk_modReq_ex h0 m _ rfl (fun _ => ⟨by rfl, by rfl⟩))
+      · split
+        · exact wk0_waitMapSem h0
+        · have h1 := wk_mapStartTask (wk_takeMapSlot h0)
+          split
+          · rename_i c; exact ih _ (h1.1 c)
+          · rename_i c; exact h1.2 (by simpa using c)
+
+theorem wk0_continueSpawner {p : Pool} {m : Nat} (h : WK (ES m) p) : WK0 (p.continueSpawner m) := by
+  unfold continueSpawner
+  simp only
+  split
+  · exact wk0_applyLoop m _ p h
+  · exact wk0_mapLoop m _ p h
+
+theorem wk0_stepMetaNotStarted {p : Pool} {m : Nat} (h : WK (ES m) p) (r : Req) : WK0 (p.stepMetaNotStarted m r) := by
+  unfold stepMetaNotStarted
+  split
+  · exact wk0_finishMeta h _
+  · split
+    · exact wk0_applyLoop m _ p h
+    · exact wk0_mapLoop m _ p h
+
+theorem wk0_roomWaitCancelled {p : Pool} {m : Nat} (h : WK (ES m) p) (r : Req) (st : Option WaitSt) :
+    WK0 (p.roomWaitCancelled m r st) := by
+  unfold roomWaitCancelled
+  simp only
+  refine wk0_finishMeta ?_ _
+  have h1 : WK (ES m) (if (st == some WaitSt.granted) = true then p.releasePool else p) := by
+    split
+    · exact wk_releasePool h
+    · exact h
+  generalize (if (st == some WaitSt.granted) = true then p.releasePool else p) = q at h1 ⊢
+  split
+  · exact wk_releaseMap h1 m
+  · exact h1
+
+theorem wk0_roomGranted {p : Pool} {m : Nat} (h : WK (ES m) p) (r : Req) : WK0 (p.roomGranted m r) := by
+  unfold roomGranted
+  simp only
+  refine wk0_continueSpawner (wk_createTask ?_ _)
+  have h0 : WK (ES m) (p.modReq m fun x => { x with frame := MFrame.running }) :=
+    wk_modReq_ex h m _ rfl (fun _ => ⟨by rfl, by rfl⟩)
+  split
+  · exact wk_wake h0 _ rfl
+  · exact h0
+
+theorem wk0_wakeWaitRoomCore {p0 : Pool} {m : Nat} {r : Req} (h0 : WK0 p0) (hp : p0.reqs[m]? = some r)
+    (hfr : r.frame = .waitRoom)
+    (hc : ((removeWaiterL m p0.sem.waiters).1 == some .cancelled || r.mustCancel ||
+      (removeWaiterL m p0.sem.waiters).1 == some .granted) = true) :
+    WK0 ((p0.modReq m fun x => { x with sched := false }).wakeWaitRoomCore m r) := by
+  have ho : r.outcome = none := by
+    cases hout : r.outcome with
+    | none => rfl
+    | some o => have := h0.od m r hp id (by simp [hout]); rw [hfr] at this; cases this
+  have hw : r.mapSem.waiters = [] := by
+    cases hl : r.mapSem.waiters with
+    | nil => rfl
+    | cons w ws =>
+      have := ((h0.mw m r hp w (by rw [hl]; exact List.mem_cons_self)).2 id).1
+      rw [hfr] at this; cases this
+  have h2 : WK (ES m) (({ (p0.modReq m fun x => { x with sched := false }) with
+      sem := { p0.sem with waiters := (removeWaiterL m p0.sem.waiters).2 } } : Pool).modReq m
+        fun x => { x with mustCancel := false }) := by
+    refine wk_enter_gen h0 _ rfl ?_ (removeWaiterL_sublist _ _) (removeWaiterL_not_mem _ _ h0.pn)
+      (fun x hx hne => removeWaiterL_mem_other _ _ _ hx hne) ⟨_, modReq_get_self _ _ _ _ (modReq_get_self _ _ _ r hp), hw, ho⟩
+    intro i hi
+    rw [modReq_get_ne _ _ _ _ hi]
+    exact modReq_get_ne _ _ _ _ hi
+  unfold wakeWaitRoomCore
+  simp only
+  split
+  · exact wk0_roomWaitCancelled h2 r _
+  · split
+    · exact wk0_roomGranted h2 r
+    · rename_i c1 c2
+      have hc' : ((removeWaiterL m p0.sem.waiters).1 == some .cancelled || r.mustCancel) = true ∨
+          ((removeWaiterL m p0.sem.waiters).1 == some .granted) = true := by
+        simpa only [Bool.or_eq_true] using hc
+      rcases hc' with a | a
+      · exact absurd a c1
+      · exact absurd a c2
+
+theorem wk0_wakeWaitRoom {p0 : Pool} {m : Nat} {r : Req} (h0 : WK0 p0) (hp : p0.reqs[m]? = some r)
+    (hfr : r.frame = .waitRoom) : WK0 ((p0.modReq m fun x => { x with sched := false }).wakeWaitRoom m r) := by
+  unfold wakeWaitRoom
+  split
+  · rename_i hc; exact wk0_wakeWaitRoomCore h0 hp hfr hc
+  · rename_i hc
+    refine wk0_clearSched h0 hp (by rw [hfr]; simp) ?_ ?_
+    · intro w hw hwo
+      have e := removeWaiterL_fst_of_mem _ h0.pn w hw
+      rw [hwo] at e
+      simp only [wk_modReq_sem, e] at hc
+      cases hst : w.st with
+      | pending => rfl
+      | granted => simp [hst] at hc
+      | cancelled => simp [hst] at hc
+    · intro w hw
+      have := ((h0.mw m r hp w hw).2 id).1
+      rw [hfr] at this; cases this
+
+theorem wk0_mapSemGranted {p : Pool} {m : Nat} (h : WK (ES m) p) (r : Req) : WK0 (p.mapSemGranted m r) := by
+  unfold mapSemGranted
+  simp only
+  have h1 := wk_mapStartTask (wk_modReq_ex h m (fun x => { x with acquired := true, frame := MFrame.running }) rfl
+    (fun _ => ⟨rfl, rfl⟩))
+  split
+  · rename_i c; exact wk0_mapLoop m _ _ (h1.1 c)
+  · rename_i c; exact h1.2 (by simpa using c)
+
+/-- nobody waits on the semaphore any more: whatever `acquire()` does on its way out wakes nobody -/
+theorem wk_s2_nil (s1 : Sem) (h : s1.waiters = []) (b c : Bool) :
+    (if b = true then (if c = true then s1.release else if (!s1.value.isZero) = true then s1.wakeNext else (s1, none))
+      else (s1, none)).1.waiters = [] ∧
+    (if b = true then (if c = true then s1.release else if (!s1.value.isZero) = true then s1.wakeNext else (s1, none))
+      else (s1, none)).2 = none := by
+  cases b <;> cases c <;> cases s1.value.isZero <;> simp [Sem.release, Sem.wakeNext, wakeNextL, h]
+
+theorem wk0_wakeWaitMapSemCore {p0 : Pool} {m : Nat} {r : Req} (h0 : WK0 p0) (hp : p0.reqs[m]? = some r)
+    (hfr : r.frame = .waitMapSem)
+    (hc : ((removeWaiterL m r.mapSem.waiters).1 == some .cancelled || r.mustCancel ||
+      (removeWaiterL m r.mapSem.waiters).1 == some .granted) = true) :
+    WK0 ((p0.modReq m fun x => { x with sched := false }).wakeWaitMapSemCore m r) := by
+  have ho : r.outcome = none := by
+    cases hout : r.outcome with
+    | none => rfl
+    | some o => have := h0.od m r hp id (by simp [hout]); rw [hfr] at this; cases this
+  have hnm : m ∉ owners p0.sem.waiters := by
+    intro hm
+    obtain ⟨w, hw, hwo⟩ := mem_owners.mp hm
+    obtain ⟨r1, hp1, hc1⟩ := h0.pw w hw
+    rw [hwo, hp] at hp1; cases hp1
+    have := (hc1 id).1
+    rw [hfr] at this; cases this
+  have hrm : (removeWaiterL m r.mapSem.waiters).2 = [] := by
+    have hlen := h0.mn m r hp
+    cases hl : r.mapSem.waiters with
+    | nil => rfl
+    | cons w ws =>
+      have hwo := (h0.mw m r hp w (by rw [hl]; exact List.mem_cons_self)).1
+      cases ws with
+      | nil => simp [removeWaiterL, hwo]
+      | cons _ _ => rw [hl] at hlen; simp at hlen
+  unfold wakeWaitMapSemCore
+  simp only
+  have hs2 := wk_s2_nil { r.mapSem with waiters := (removeWaiterL m r.mapSem.waiters).2 } hrm
+    ((removeWaiterL m r.mapSem.waiters).1 == some WaitSt.granted)
+    ((removeWaiterL m r.mapSem.waiters).1 == some WaitSt.cancelled || r.mustCancel)
+  generalize (if ((removeWaiterL m r.mapSem.waiters).1 == some WaitSt.granted) = true then _ else _ : Sem × Option Nat) = s2 at hs2 ⊢
+  obtain ⟨s2a, s2b⟩ := s2
+  obtain ⟨e1, e2⟩ := hs2
+  simp only at e1 e2
+  subst e2
+  have h2 : WK (ES m) (((p0.modReq m fun x => { x with sched := false }).modReq m
+      fun x => { x with mapSem := s2a, mustCancel := false }).schedOpt none) := by
+    refine wk_enter_gen h0 _ rfl ?_ (List.Sublist.refl _) hnm (fun x hx _ => hx)
+      ⟨_, modReq_get_self _ _ _ _ (modReq_get_self _ _ _ r hp), e1, ho⟩
+    intro i hi
+    show ((p0.modReq m _).modReq m _).reqs[i]? = _
+    rw [modReq_get_ne _ _ _ _ hi]
+    exact modReq_get_ne _ _ _ _ hi
+  split
+  · exact wk0_finishMeta h2 _
+  · split
+    · exact wk0_mapSemGranted h2 r
+    · rename_i c1 c2
+      simp only [Bool.or_eq_true, not_or] at c1 hc
+      rcases hc with (a | a) | a
+      · exact absurd a c1.1
+      · exact absurd a c1.2
+      · exact absurd a c2
+
+theorem wk0_wakeWaitMapSem {p0 : Pool} {m : Nat} {r : Req} (h0 : WK0 p0) (hp : p0.reqs[m]? = some r)
+    (hfr : r.frame = .waitMapSem) : WK0 ((p0.modReq m fun x => { x with sched := false }).wakeWaitMapSem m r) := by
+  unfold wakeWaitMapSem
+  split
+  · rename_i hc; exact wk0_wakeWaitMapSemCore h0 hp hfr hc
+  · rename_i hc
+    refine wk0_clearSched h0 hp (by rw [hfr]; simp) ?_ ?_
+    · intro w hw hwo
+      obtain ⟨r1, hp1, hc1⟩ := h0.pw w hw
+      rw [hwo, hp] at hp1; cases hp1
+      have := (hc1 id).1
+      rw [hfr] at this; cases this
+    · intro w hw
+      have hlen := h0.mn m r hp
+      have hwo := (h0.mw m r hp w hw).1
+      cases hl : r.mapSem.waiters with
+      | nil => rw [hl] at hw; cases hw
+      | cons w1 ws =>
+        cases ws with
+        | cons _ _ => rw [hl] at hlen; simp at hlen
+        | nil =>
+          rw [hl, List.mem_singleton] at hw; subst hw
+          simp only [hl, removeWaiterL, hwo, if_true] at hc
+          cases hst : w.st with
+          | pending => rfl
+          | granted => simp [hst] at hc
+          | cancelled => simp [hst] at hc
+
+theorem wk0_stepMeta {p : Pool} (h : WK0 p) (m : Nat) : WK0 (p.stepMeta m) := by
+  unfold stepMeta
+  split
+  · exact h
+  · rename_i r hp
+    split
+    · exact h
+    · simp only
+      have hpw : ∀ fr, r.frame = fr → fr ≠ .waitRoom → ∀ w ∈ p.sem.waiters, w.owner = m → w.st = .pending := by
+        intro fr hfr hne w hw hwo
+        obtain ⟨r1, hp1, hc1⟩ := h.pw w hw
+        rw [hwo, hp] at hp1; cases hp1
+        exact absurd ((hc1 id).1 ▸ hfr).symm hne
+      have hmw : ∀ fr, r.frame = fr → fr ≠ .waitMapSem → ∀ w ∈ r.mapSem.waiters, w.st = .pending := by
+        intro fr hfr hne w hw
+        have := ((h.mw m r hp w hw).2 id).1
+        exact absurd (this ▸ hfr).symm hne
+      split
+      · rename_i hfr
+        exact wk0_clearSched h hp (by rw [hfr]; simp) (hpw _ hfr (by simp)) (hmw _ hfr (by simp))
+      · rename_i hfr
+        exact wk0_clearSched h hp (by rw [hfr]; simp) (hpw _ hfr (by simp)) (hmw _ hfr (by simp))
+      · rename_i hfr
+        have ho : r.outcome = none := by
+          cases hout : r.outcome with
+          | none => rfl
+          | some o => have := h.od m r hp id (by simp [hout]); rw [hfr] at this; cases this
+        have hn : m ∉ owners p.sem.waiters := by
+          intro hm
+          obtain ⟨w, hw, hwo⟩ := mem_owners.mp hm
+          have := hpw _ hfr (by simp) w hw hwo
+          obtain ⟨r1, hp1, hc1⟩ := h.pw w hw
+          rw [hwo, hp] at hp1; cases hp1
+          have := (hc1 id).1
+          rw [hfr] at this; cases this
+        have hw : r.mapSem.waiters = [] := by
+          cases hl : r.mapSem.waiters with
+          | nil => rfl
+          | cons w ws =>
+            have := ((h.mw m r hp w (by rw [hl]; exact List.mem_cons_self)).2 id).1
+            rw [hfr] at this; cases this
+        exact wk0_stepMetaNotStarted
+          (wk_modReq_ex (wk_enter_spawner h m r hp hn hw ho) m _ rfl (fun _ => ⟨by rfl, by rfl⟩)) r
+      · rename_i hfr; exact wk0_wakeWaitRoom h hp hfr
+      · rename_i hfr; exact wk0_wakeWaitMapSem h hp hfr
+
+/-! ### assembly -/
+
+theorem wk0_runRef {p : Pool} (h : WK0 p) (r : Ref) : WK0 (p.runRef r) := by
+  cases r with
+  | task t => exact wk0_stepTask h t
+  | spawner m => exact wk0_stepMeta h m
+  | api a => exact wk_stepApi h a
+  | gchild g i => exact wk_gatherChildDone h g i true
+
+theorem want_init (size : Cap) (simple : Option SpawnSpec) : Want (Pool.init size simple) := by
+  refine { tq := ?_, tw := ?_, rs := ?_, pn := ?_, pw := ?_, pe := ?_, mn := ?_, mw := ?_, me := ?_, od := ?_, ce := ?_ }
+  all_goals simp [Pool.init, owners]
+
+theorem want_applyOp (p : Pool) (orders : List (List Nat)) (o : Op) (h : Want p) :
+    Want (({ p with orders := orders } : Pool).applyOp o).1 :=
+  (wk_applyOp (wk_of_eq h.wk (by rfl) (by rfl) (by rfl)) o).toWantOK
+
+theorem want_runRef (p : Pool) (orders : List (List Nat)) (r : Ref) (h : Want p) :
+    Want (({ p with orders := orders } : Pool).runRef r) :=
+  (wk0_runRef (wk_of_eq h.wk (by rfl) (by rfl) (by rfl)) r).toWantOK
+
+theorem want_drain (p : Pool) (h : Want p) : Want { p with emit := [] } :=
+  (wk_of_eq h.wk (q := { p with emit := [] }) rfl rfl rfl).toWantOK
+
+/-- **whoever has something to do is flagged**, in every pool of every reachable world -/
+theorem wantInvariant : PoolInvariant (fun _ p => Want p) allOps where
+  init := fun c simple _ => want_init c.size0 simple
+  op := fun _ p orders o _ h => want_applyOp p orders o h
+  run := fun _ p orders r h => want_runRef p orders r h
+  drain := fun _ p h => want_drain p h
+
 end Pool
 end Taskpool
